@@ -217,14 +217,24 @@ theorem ledger_walkLoop (s0 : State) (nid : Nat) (dir : Int) (stop : Nat) :
         · exact ⟨_, l1⟩
         · exact ih _ _ _ _ _ _ (good_lookupExact g1 _ _ _) (ledger_lookupExact l1 g1.1 _ _ _)
 
-theorem ledger_foreach {s : State} (g : Good s) (nid pgno subno : Nat) (dir : Int) (stop fuel : Nat) :
-    ∃ cp', Ledger s (s.foreachPage nid pgno subno dir stop fuel).1 cp' := by
-  unfold State.foreachPage
+/-- both shapes of the start look-up -/
+theorem ledger_foreachS (exact : Bool) {s : State} (g : Good s) (nid pgno subno : Nat) (dir : Int) (stop fuel : Nat) :
+    ∃ cp', Ledger s (s.foreachPageS exact nid pgno subno dir stop fuel).1 cp' := by
+  unfold State.foreachPageS
   split
   · exact ⟨_, Ledger.refl s⟩
   · split
     · exact ⟨_, Ledger.refl s⟩
-    · exact ledger_walkLoop s _ _ _ _ _ _ _ _ _ _ (good_getPage g _ _ _ _) (ledger_getPage (Ledger.refl s) g.1 _ _ _ _)
+    · split
+      · simp only
+        split
+        · exact ledger_walkLoop s _ _ _ _ _ _ _ _ _ _ (good_lookupExact g _ _ _)
+            (ledger_lookupExact (Ledger.refl s) g.1 _ _ _)
+        · exact ledger_walkLoop s _ _ _ _ s none _ _ _ _ g (Ledger.refl s)
+      · exact ledger_walkLoop s _ _ _ _ _ _ _ _ _ _ (good_getPage g _ _ _ _) (ledger_getPage (Ledger.refl s) g.1 _ _ _ _)
+
+theorem ledger_foreach {s : State} (g : Good s) (nid pgno subno : Nat) (dir : Int) (stop fuel : Nat) :
+    ∃ cp', Ledger s (s.foreachPage nid pgno subno dir stop fuel).1 cp' := ledger_foreachS _ g _ _ _ _ _ _
 
 /-- a ledger entry gives: still there, content unchanged, at least as many references -/
 theorem ledger_ge {s0 s : State} {cp : Option Nat} (l : Ledger s0 s cp) :
